@@ -53,6 +53,7 @@ type SortReg struct {
 	typeIDs  map[string]int
 	strLits  map[string]string // literal -> const name
 	litOrder []string
+	resolve  func(name string) bool // registers the struct datatype called name, if a program type matches
 }
 
 type StructInfo struct {
@@ -359,6 +360,11 @@ func (r *SortReg) specSort(s string) (string, error) {
 	}
 	if _, ok := r.structs[s]; ok {
 		return s, nil
+	}
+	if r.resolve != nil && strings.HasPrefix(s, "S_") && r.resolve(s) {
+		if _, ok := r.structs[s]; ok {
+			return s, nil
+		}
 	}
 	return "", fmt.Errorf("unknown sort %q", s)
 }
